@@ -898,6 +898,8 @@ def _correspond(ctx, corr, gdir, exe, rng, wd):
                                       f"#{i} <{a['tag']}> {a['adj']} vs {hv}")
                             break
                         corr.count("html_adjobs_compared")
+    # ---- stream 2b: writer model on the quantities LocalNetworkXML reads (in-process), reader model on the leaves
+    records_stream(ctx, corr, exe, wd, [(r, c) for r, c in zip(recs, nets) if r["ok"]])
     # ---- stream 3: two different results through compare-xyz; languages x encodings of the text output
     good = [(r, c) for r, c in zip(recs, nets) if r["ok"] and c["kind"] != "corpus"]
     for r, c in good[: ctx.size(3, 20)]:
@@ -906,6 +908,229 @@ def _correspond(ctx, corr, gdir, exe, rng, wd):
         languages(ctx, gdir, wd, r, c, corr)
     if corr.stats.get("networks_adjusted", 0) < max(3, len(nets) // 3):
         corr.inconclusive.append(f"only {corr.stats.get('networks_adjusted', 0)} of {len(nets)} generated networks were adjusted")
+
+
+# ---------------------------------------------------------------- records: writer / reader models vs the real code
+
+NUM_TOL = {"x": 0.51e-6, "y": 0.51e-6, "z": 0.51e-6, "approx": 0.51e-6, "adj": 0.51e-6, "qrr": 0.51e-3, "f": 0.51e-3,
+           "std-residual": 0.51e-3, "err-obs": 0.51e-3, "err-adj": 0.51e-3}
+ID_TAGS = ("id", "from", "to", "left", "right")
+
+
+def _leaves_of(e):
+    return [(local(c.tag), c.text or "") for c in e]
+
+
+def _hs(s):
+    return hexs(s.encode("utf-8"))
+
+
+def _cmp_leaves(model_tokens, xml_leaves, tol_default):
+    """model: tag value tag value …  (ids hex, numbers hex doubles)  vs  the document's leaves (tag, printed text)"""
+    if len(model_tokens) != 2 * len(xml_leaves):
+        return f"{len(model_tokens) // 2} children in the model, {len(xml_leaves)} in the document"
+    for k, (tag, text) in enumerate(xml_leaves):
+        mt, mv = model_tokens[2 * k], model_tokens[2 * k + 1]
+        if mt != tag:
+            return f"child {k}: <{mt}> in the model, <{tag}> in the document"
+        if tag in ID_TAGS:
+            if mv != _hs(text):
+                return f"<{tag}>: {unhexs(mv)!r} vs {text!r}"
+        else:
+            try:
+                a, b = hex2float(mv), float(text)
+            except ValueError:
+                return f"<{tag}>: not a number {mv} / {text!r}"
+            tol = NUM_TOL.get(tag.lower(), tol_default)
+            if not (abs(a - b) <= tol + 1e-12 * abs(b)) and not (a != a and b != b):
+                return f"<{tag}>: model {a!r} document {text}"
+    return None
+
+
+def _recs_op(name, head, recs):
+    """R tag L tag hexdata …"""
+    t = [name] + head
+    for tag, leaves in recs:
+        t += ["R", tag]
+        for lt, text in leaves:
+            t += ["L", lt, _hs(text)]
+    return " ".join(t)
+
+
+def records_stream(ctx, corr, exe, wd, good):
+    rng = ctx.rng
+    cases1 = []
+    for r, c in good:
+        band = rng.choice([-1, -1, 0, 1, 2, 3, 5, 9, 1000])
+        cases1.append([f"wnet {hexs(c['gkf'].encode('utf-8'))} {band}"])
+    impl1, crashes1 = run_cases(exe, cases1, timeout=1800)
+    ops, meta = [], []
+    for i, (r, c) in enumerate(good):
+        payload = dict(r["payload"], stream="records")
+        if i in crashes1:
+            corr.fail("LocalNetworkXML / adjustment crashed in-process", payload, "LocalNetworkXML::write", crashes1[i][1])
+            continue
+        d = {"pt": [], "ori": [], "obs": []}
+        for l in impl1[i]:
+            t = l.split()
+            if t and t[0] in d:
+                d[t[0]].append(t[1:])
+            elif t:
+                d[t[0]] = t[1:]
+        if "throw" in d or "xml" not in d:
+            corr.count("records_not_adjusted_in_process")
+            continue
+        xml_bytes = unhexs(d["xml"][0])
+        path = wd / f"rec{i}.xml"
+        path.write_bytes(xml_bytes)
+        try:
+            root = ET.fromstring(xml_bytes)
+        except ET.ParseError as e:
+            corr.fail("the XML written in-process is not well-formed", payload, "LocalNetworkXML::write", str(e))
+            continue
+        byname = {}
+        for e in root.iter():
+            byname.setdefault(local(e.tag), e)
+        ys, r2g, scale, kki, m0, n, band = d["frame"]
+        sects = {}
+        for sect in ("fixed", "approximate", "adjusted"):
+            sects[sect] = [_leaves_of(p) for p in byname[sect] if local(p.tag) == "point"]
+        oris = [_leaves_of(o) for o in byname["orientation-shifts"] if local(o.tag) == "orientation"]
+        obs = [(local(o.tag), _leaves_of(o)) for o in byname["observations"]]
+        cm = byname["cov-mat"]
+        flt = [c.text for c in cm if local(c.tag) == "flt"]
+        hdr = (int([c.text for c in cm if local(c.tag) == "dim"][0]), int([c.text for c in cm if local(c.tag) == "band"][0]))
+        m = {"payload": payload, "i": i, "gkf": c["gkf"], "sects": sects, "oris": oris, "obs": obs, "flt": flt, "hdr": hdr, "w": {}, "r": {}}
+        for sect in ("fixed", "approximate", "adjusted"):
+            m["w"][sect] = len(ops)
+            ops.append([" ".join(["wsec", sect, ys] + [v for p in d["pt"] for v in p])])
+        m["w"]["ori"] = len(ops)
+        ops.append([" ".join(["wori", ys, r2g] + [v for o in d["ori"] for v in (o[0], o[1], o[3], o[4])])])
+        m["w"]["obs"] = len(ops)
+        ops.append([" ".join(["wobs", ys, r2g, scale, kki] + [v for o in d["obs"] for v in o])])
+        m["w"]["cov"] = len(ops)
+        ops.append([" ".join(["wcov", m0, band, n] + [v for p in d["pt"] for v in p[1:6]] + ["|"]
+                             + [v for o in d["ori"] for v in (o[1], o[2])] + ["|"] + d["qxx"])])
+        for sect in ("fixed", "approximate", "adjusted"):
+            m["r"][sect] = len(ops)
+            ops.append([_recs_op("rsec", [sect], [("point", l) for l in sects[sect]])])
+        kpts = sum(sum(1 for t, _ in l if t.lower() in "xyz") for l in sects["adjusted"])
+        m["r"]["ori"] = len(ops)
+        ops.append([_recs_op("roris", [str(kpts)], [("orientation", l) for l in oris])])
+        m["r"]["obs"] = len(ops)
+        ops.append([_recs_op("robs", [], obs)])
+        m["read"] = len(ops)
+        ops.append([f"read {path}"])
+        m["n_ori"], m["mirror"] = len(d["ori"]), hex2float(ys) < 0
+        meta.append(m)
+    model, _ = run_cases(ctx.driver("drv_xml"), ops)
+    impl, crashes = run_cases(exe, [o if o[0].startswith("read ") else ["nop"] for o in ops])
+    for m in meta:
+        payload = m["payload"]
+        nontriv = m["mirror"] or m["n_ori"] > 0
+        # ---- writer model vs the document
+        for sect in ("fixed", "approximate", "adjusted"):
+            out = [l.split() for l in model[m["w"][sect]]]
+            pts = [t[1:] for t in out if t and t[0] == "point"]
+            corr.case(key=("wsec", m["i"], sect, len(pts)) if pts else None)
+            why = None
+            if len(pts) != len(m["sects"][sect]):
+                why = f"{len(pts)} points in the model, {len(m['sects'][sect])} in the document"
+            else:
+                for a, b in zip(pts, m["sects"][sect]):
+                    why = _cmp_leaves(a, b, 1e-9 if sect == "adjusted" else 0.51e-6)
+                    if why:
+                        break
+            corr.count("wsec_points", len(pts))
+            if why:
+                corr.disagree("wsec", [ops[m["w"][sect]][0][:300], {"gkf": m["gkf"], "section": sect}], [why], model[m["w"][sect]][:6])
+        out = [l.split() for l in model[m["w"]["ori"]]]
+        os_ = [t[1:] for t in out if t and t[0] == "ori"]
+        corr.case(key=("wori", m["i"]) if os_ else None)
+        why = None if len(os_) == len(m["oris"]) else f"{len(os_)} orientations in the model, {len(m['oris'])} in the document"
+        for a, b in zip(os_, m["oris"]):
+            why = why or _cmp_leaves(a, b, 0.51e-6)
+        corr.count("wori_records", len(os_))
+        if why:
+            corr.disagree("wori", [ops[m["w"]["ori"]][0][:300], {"gkf": m["gkf"]}], [why], model[m["w"]["ori"]][:6])
+        out = [l.split() for l in model[m["w"]["obs"]]]
+        ob = [t[1:] for t in out if t and t[0] == "obs"]
+        corr.case(key=("wobs", m["i"], nontriv))
+        why = None if len(ob) == len(m["obs"]) else f"{len(ob)} observations in the model, {len(m['obs'])} in the document"
+        for k, (a, (tag, leaves)) in enumerate(zip(ob, m["obs"])):
+            if why:
+                break
+            if a[0] != tag:
+                why = f"observation {k + 1}: <{a[0]}> in the model, <{tag}> in the document"
+            else:
+                w = _cmp_leaves(a[1:], leaves, 1e-9)
+                why = w and f"observation {k + 1} <{tag}>: {w}"
+            if any(t == "err-obs" for t, _ in leaves):
+                corr.count("wobs_with_err_obs")
+        corr.count("wobs_records", len(ob))
+        if why:
+            corr.disagree("wobs", [ops[m["w"]["obs"]][0][:300], {"gkf": m["gkf"]}], [why], model[m["w"]["obs"]][:4])
+        out = model[m["w"]["cov"]]
+        corr.case(key=("wcov", m["i"], m["hdr"]))
+        why = None
+        if len(out) != 2 or out[0].split() != ["hdr", str(m["hdr"][0]), str(m["hdr"][1])]:
+            why = f"header: model {out[:1]} document {m['hdr']}"
+        else:
+            mv = out[1].split()[1:]
+            if len(mv) != len(m["flt"]):
+                why = f"{len(mv)} <flt> in the model, {len(m['flt'])} in the document"
+            else:
+                for k, (a, b) in enumerate(zip(mv, m["flt"])):
+                    x, y = hex2float(a), float(b)
+                    if abs(x - y) > 1.01e-7 * abs(y) + 1e-300:
+                        why = f"<flt> #{k + 1}: m0^2*qxx(ind,ind) = {x!r}, document {b}"
+                        break
+            corr.count("wcov_flt", len(mv))
+        if why:
+            corr.disagree("wcov", [ops[m["w"]["cov"]][0][:300], {"gkf": m["gkf"]}], [why], [l[:300] for l in out])
+        # ---- reader model vs the real reader on the same document
+        j = m["read"]
+        if j in crashes:
+            corr.fail("gama's result reader crashed on the XML written in-process", payload, "LocalNetworkAdjustmentResults::read_xml", crashes[j][1])
+            continue
+        dump = impl[j]
+        for sect, name in (("fixed", "fixed"), ("approximate", "approx"), ("adjusted", "adjusted")):
+            want = ["pt " + l.split(None, 1)[1] for l in dump if l.startswith(name + " ")] + ["end"]
+            corr.case(key=("rsec", m["i"], sect) if len(want) > 1 else None)
+            if not points_equal(want, model[m["r"][sect]]):
+                corr.disagree("rsec", [ops[m["r"][sect]][0][:300], {"gkf": m["gkf"], "section": sect}], want[:8], model[m["r"][sect]][:8])
+        want = [l for l in dump if l.startswith("orientation ")] + ["end"]
+        corr.case(key=("roris", m["i"]) if len(want) > 1 else None)
+        if not _recs_equal(want, model[m["r"]["ori"]], ids=(1,), nums=(2, 3)):
+            corr.disagree("roris", [ops[m["r"]["ori"]][0][:300], {"gkf": m["gkf"]}], want[:8], model[m["r"]["ori"]][:8])
+        want = [l for l in dump if l.startswith("obs ")] + ["end"]
+        corr.case(key=("robs", m["i"]))
+        if not _recs_equal(want, model[m["r"]["obs"]], ids=(1, 2, 3, 4, 5, 12, 13), nums=(6, 7, 8, 9, 10, 11)):
+            corr.disagree("robs", [ops[m["r"]["obs"]][0][:300], {"gkf": m["gkf"]}], want[:6], model[m["r"]["obs"]][:6])
+        corr.count("robs_records", len(want) - 1)
+    corr.count("records_networks", len(meta))
+    if good and len(meta) < max(2, len(good) // 2):
+        corr.inconclusive.append(f"records stream: only {len(meta)} of {len(good)} networks adjusted in-process")
+
+
+def _recs_equal(impl, model, ids, nums):
+    """reader dump (hex doubles) vs model records (printed tokens)"""
+    if len(impl) != len(model):
+        return False
+    for a, b in zip(impl, model):
+        ta, tb = a.split(), b.split()
+        if len(ta) != len(tb):
+            return False
+        for k, (u, v) in enumerate(zip(ta, tb)):
+            if k in nums:
+                try:
+                    if hex2float(u) != float(v):
+                        return False
+                except ValueError:
+                    return False
+            elif u != v:
+                return False
+    return True
 
 
 def corpus_net_info(gkf):
